@@ -173,6 +173,26 @@ func (e *fnEnc) bigLoad(st *state, addr string, t types.Type) string {
 	return app(fname, args...)
 }
 
+// bigHavoc: the cells of a large array at addr become unknown.
+func (e *fnEnc) bigHavoc(st *state, addr string, t types.Type) {
+	acc := map[string]*Sort{}
+	if d := e.leafHeaps(t, acc); d > 4 {
+		e.unsupported("havoc of large array %s (cells nested %d deep)", t, d)
+	}
+	var keys []string
+	for k := range acc {
+		keys = append(keys, k)
+	}
+	sort.Strings(keys)
+	for _, k := range keys {
+		old := e.heap(st, k, acc[k])
+		nh := e.declare("Hbig_"+k, &Sort{name: "(Array Ref " + acc[k].name + ")"})
+		e.hasQuant = true
+		e.emit(fmt.Sprintf("(assert (forall ((a Ref)) (! (=> (not (under %s a)) (= (select %s a) (select %s a))) :pattern ((select %s a)))))", addr, nh, old, nh))
+		st.heap[k] = nh
+	}
+}
+
 // bigStore writes a large array value: the cells below addr become unknown, everything
 // else is unchanged, and reading the whole array back gives the value written.
 func (e *fnEnc) bigStore(st *state, addr string, t types.Type, val string) {
